@@ -334,7 +334,10 @@ class HashClient:
         try:
             failed = client.set_many(values, *args, **kwargs)
         except Exception as e:
-            if not self.ignore_exc:
+            # A connection failure is reported even with ignore_exc so that
+            # _safely_run_set_many can do its failure bookkeeping (and list
+            # the keys as failed); ignore_exc is honoured there.
+            if not self.ignore_exc or isinstance(e, OSError):
                 return succeeded, failed, e
 
         succeeded = [key for key in values if key not in failed]
